@@ -30,7 +30,8 @@ Traits9 == {"Display", "Debug", "Octal", "LowerHex", "UpperHex", "Pointer", "Bin
 Types11 == Traits9 \cup {"LowerDebug", "UpperDebug"}
 TraitOf(ty) == IF ty \in {"LowerDebug", "UpperDebug"} THEN "Debug" ELSE ty
 
-NArgs(a) == CASE a = "none" -> 0 [] a = "two" -> 2 [] OTHER -> 1
+\* "named_extra": the matching named argument and a second named argument nothing refers to (`v = .., w = ..`)
+NArgs(a) == CASE a = "none" -> 0 [] a \in {"two", "named_extra"} -> 2 [] OTHER -> 1
 
 (***************************************************************************)
 (* What format_args! makes of the placeholder's reference                  *)
@@ -41,11 +42,12 @@ Denotes(lit, args) ==
       [] lit.ref = "pos1" -> IF NArgs(args) >= 2 THEN "arg2" ELSE "error"
       [] lit.ref \in {"pos2", "pos_wrap0"} -> "error"        \* pos_wrap0: the index 2^64, which is 0 modulo 2^64
       [] lit.ref = "name_field" -> IF args = "none" THEN "field"
-                                   ELSE IF args = "named_match" THEN "arg1" ELSE "error"   \* unused argument
-      [] lit.ref = "name_other" -> IF args = "named_match" THEN "arg1" ELSE "error"
+                                   ELSE IF args \in {"named_match", "named_extra"} THEN "arg1" ELSE "error"   \* unused argument
+      [] lit.ref = "name_other" -> IF args \in {"named_match", "named_extra"} THEN "arg1" ELSE "error"
 \* every explicit argument must be used by some placeholder
 AllUsed(lit, args) ==
     CASE args = "two" -> lit.nph = 2 /\ lit.ref \in {"next", "pos0"}     \* `{} {1}`
+      [] args = "named_extra" -> FALSE                                  \* `w` is never used: rustc rejects the literal
       [] OTHER -> TRUE
 \* the second placeholder is `{1}`: needs a second argument
 SecondOk(lit, args) == lit.nph = 2 => NArgs(args) = 2
